@@ -28,6 +28,7 @@
 #include "forkserver.hpp"
 
 #include <cstdio>
+#include <cstring>
 #include <cxxabi.h>
 #include <nlohmann/json.hpp>
 #include <string>
@@ -83,14 +84,23 @@ static json read_items(const json& what)
   for (auto const& it : what) {
     std::string name = it[0], type = it[1];
     try {
-      if (type == "int")
+      // cheap self-check: the C getters must agree with get_value<T>
+      bool c_ok = true;
+      if (type == "int") {
         r[name] = cfg::get_value<int>(name);
-      else if (type == "double")
-        r[name] = hexf(cfg::get_value<double>(name));
-      else if (type == "boolean")
+        c_ok    = sg_cfg_get_int(name.c_str()) == cfg::get_value<int>(name);
+      } else if (type == "double") {
+        double d = cfg::get_value<double>(name);
+        r[name]  = hexf(d);
+        double c = sg_cfg_get_double(name.c_str());
+        c_ok     = memcmp(&c, &d, sizeof d) == 0;
+      } else if (type == "boolean") {
         r[name] = cfg::get_value<bool>(name);
-      else
+        c_ok    = (sg_cfg_get_boolean(name.c_str()) != 0) == cfg::get_value<bool>(name);
+      } else
         r[name] = cfg::get_value<std::string>(name);
+      if (not c_ok)
+        r[name] = json{{"exc", "sg_cfg_get_* disagrees with get_value<T>"}};
     } catch (const std::exception& e) {
       r[name] = json{{"exc", exc_name(e)}};
     }
